@@ -81,6 +81,13 @@ CONTENT_VARIANTS = {
         ('unencodable-surrogate-16', {'text': '\udc00b', 'encoding':
                                       'utf-16'}, REJECT),
         ('codec-unknown', {'encoding': 'nope-8'}, REJECT),
+        ('unencodable-low-surrogate-8', {'text': 'a\udc80b\n', 'encoding':
+                                         'utf-8'}, REJECT),
+        ('unencodable-low-surrogate-a', {'text': '\udcff', 'encoding':
+                                         'ascii'}, REJECT),
+        ('unencodable-low-surrogate-l', {'text': 'x\udce9\n', 'encoding':
+                                         'latin-1'}, REJECT),
+        ('indent-float-integral', {'indent': {'$float': '4.0'}}, MAY),
         ('indent-neg', {'indent': -1}, MAY),
         ('indent-none', {'indent': None}, MAY),
         ('indent-str', {'indent': '4'}, MAY),
@@ -202,6 +209,11 @@ def generate(rng, tier, cls):
 
     spec = {'id': 'P1', 'kind': 'writer', 'file': 'f1',
             'main_encoding': main, 'ops': ops}
+
+    if rng.chance(0.06):
+        # a sink whose write() returns nothing
+        spec['write_returns_none'] = True
+
     faults = []
 
     if cls == 'write_error':
